@@ -244,7 +244,9 @@ def main(ctx):
                 ev, nv = e["ret"][2][1], n["ret"][2][1]
                 a = struct.unpack(">d", bytes.fromhex(ev[1]))[0]
                 b = struct.unpack(">d", bytes.fromhex(nv[1]))[0]
-                ok = abs(a) > 2 ** 53 and abs(a - b) <= math.ulp(b)
+                # (V8 accumulates in doubles for radixes that are not powers of two and lands a few ulps off the correctly
+                #  rounded value; the specification calls the result implementation-approximated there)
+                ok = abs(a) > 2 ** 53 and abs(a - b) <= 8 * math.ulp(b)
             except Exception:
                 pass
         fam(kind.split(":")[0], 0 if ok else 1)
